@@ -472,6 +472,51 @@ func c41TlsNegoFacts(id string) func(repo string) (string, error) {
 			return "", fmt.Errorf("readClientHello: no ServerRule.Get / NextProtos.Get / MultiCert.Get call found")
 		}
 		fmt.Fprintf(&b, "\n/-- readClientHello assigns `c.serverName` (from the hello's SNI) before the first of ServerRule.Get(c),\n    rule.NextProtos.Get(c), MultiCert.Get(c) — the lookups that read it through the Conn -/\ndef serverNameSetBeforeLookups : Bool := %v\n", setPos != 0 && setPos < firstUse)
+		// what a full handshake stores for later resumption: the `vers` field of the sessionState literals in
+		// sendSessionTicket (ticket) and serverHandshake (session cache)
+		versExprs := []string{}
+		for _, fn := range []string{"sendSessionTicket", "serverHandshake"} {
+			fd := findFunc(fhs, "serverHandshakeState", fn)
+			if fd == nil {
+				fd = findFunc(fhs, "Conn", fn)
+			}
+			if fd == nil {
+				return "", fmt.Errorf("%s not found", fn)
+			}
+			n := 0
+			ast.Inspect(fd, func(nd ast.Node) bool {
+				cl, ok := nd.(*ast.CompositeLit)
+				if !ok || c41ExprString(cl.Type) != "sessionState" {
+					return true
+				}
+				for _, e := range cl.Elts {
+					if kv, ok := e.(*ast.KeyValueExpr); ok && c41ExprString(kv.Key) == "vers" {
+						versExprs = append(versExprs, c41ExprString(kv.Value))
+						n++
+					}
+				}
+				return true
+			})
+			if n != 1 {
+				return "", fmt.Errorf("%s: expected one sessionState literal with a vers field, found %d", fn, n)
+			}
+		}
+		for k, e := range versExprs {
+			var v bool
+			switch e {
+			case "c.vers":
+				v = true
+			case "hs.clientHello.vers":
+				v = false
+			default:
+				return "", fmt.Errorf("sessionState literal: vers = %s not understood", e)
+			}
+			name, where := "ticketStoresNegotiatedVersion", "sealed into a ticket by sendSessionTicket"
+			if k == 1 {
+				name, where = "cacheStoresNegotiatedVersion", "stored in the session cache by serverHandshake"
+			}
+			fmt.Fprintf(&b, "\n/-- the sessionState %s has vers = %s: true = the NEGOTIATED version `c.vers`,\n    false = the version the client offered -/\ndef %s : Bool := %v\n", where, e, name, v)
+		}
 		b.WriteString(footer(id))
 		return b.String(), nil
 	}
